@@ -58,6 +58,17 @@ func mkStream(t Txn) public_types.APIStreamI {
 	for _, kv := range t.Headers {
 		hdr[kv.K] = kv.V
 	}
+	if t.Resp && t.NoResp {
+		// what Stream.executeReq does after an early response: the request stream,
+		// handled as a response; URL, method, headers come from the request,
+		// GetResponse() is nil
+		st := stream_types.NewRequestAPIStream(lunar_messages.OnRequest{
+			ID: "r1", SequenceID: "r1", Method: t.Method, Scheme: "https", URL: t.URL,
+			Query: queryString(t.Query), Headers: hdr,
+		}, sharedState)
+		st.SetType(public_types.StreamTypeResponse)
+		return st
+	}
 	if t.Resp {
 		return stream_types.NewResponseAPIStream(lunar_messages.OnResponse{
 			ID: "r1", SequenceID: "r1", Method: t.Method, URL: t.URL, Status: t.Status, Headers: hdr,
